@@ -380,6 +380,11 @@ impl RoomPowerLevels {
 
     /// Get the power level required to send the given state event type.
     pub fn for_state(&self, state_type: StateEventType) -> Int {
+        // The authorization rules only check the `invite` power level for this event type.
+        if state_type == StateEventType::RoomThirdPartyInvite {
+            return self.invite;
+        }
+
         self.events.get(&state_type.into()).copied().unwrap_or(self.state_default)
     }
 
